@@ -106,7 +106,7 @@ func (m *monitor) setExh(what string, n int) {
 // ---- multi-chunk files ------------------------------------------------------------
 
 func (m *monitor) multiLens() []int {
-	l := []int{chunk, chunk + 1, 2 * chunk, 2*chunk + 1000, 3 * chunk, 4*chunk + 777, 5 * chunk}
+	l := []int{chunk - 1, chunk, chunk + 1, 2 * chunk, 2*chunk + 1000, 3 * chunk, 4*chunk + 777, 5 * chunk}
 	if m.r.Thorough() {
 		l = append(l, 6*chunk+1, 7*chunk)
 	}
@@ -188,6 +188,14 @@ func (m *monitor) stageMulti(jobs *[]job) {
 			m.addA(jobs, cost, b.extend("extend", fmt.Sprintf("%d-random-bytes", k), mon.Bytes(rng, k)))
 		}
 
+		// the CONTENT of the appended data: tails made only of white space (what
+		// the armor format tolerates after its END line must not be tolerated
+		// after the last chunk of a binary file), look-alikes, NULs, and mixes
+		// that end in one non-blank byte
+		for _, t := range whitespaceTails() {
+			m.addA(jobs, cost, b.extend("extend-whitespace", t.name, t.data))
+		}
+
 		// drops: every non-empty set of chunks removed
 		if nc <= 7 {
 			for mask := 1; mask < 1<<nc; mask++ {
@@ -253,6 +261,25 @@ func (m *monitor) stageMulti(jobs *[]job) {
 		}
 		rec()
 		m.r.Tab("own_chunk_sequences_max_len", fmt.Sprintf("%s:%d", b.name, maxLen))
+	}
+}
+
+type tail struct {
+	name string
+	data []byte
+}
+
+func whitespaceTails() []tail {
+	rep := func(s string, n int) []byte { return bytes.Repeat([]byte(s), n) }
+	return []tail{
+		{"LF", []byte("\n")}, {"SP", []byte(" ")}, {"CRLF", []byte("\r\n")}, {"TAB-SP-LF-LF", []byte("\t \n\n")},
+		{"VT-FF", []byte("\v\f")}, {"CR", []byte("\r")},
+		{"1000xLF", rep("\n", 1000)}, {"1023xSP", rep(" ", 1023)}, {"1024xSP", rep(" ", 1024)}, {"1025xSP", rep(" ", 1025)},
+		{"40000xCRLF", rep("\r\n", 40000)},
+		{"0x85", []byte{0x85}}, {"0xA0", []byte{0xA0}}, {"U+0085", []byte{0xC2, 0x85}}, {"U+00A0", []byte{0xC2, 0xA0}},
+		{"NUL", []byte{0}}, {"16xNUL", make([]byte, 16)}, {"LF-NUL", []byte("\n\x00")},
+		{"SP-LF-x", []byte(" \n x")}, {"1000xSP-then-x", append(rep(" ", 1000), 'x')}, {"LF-LF-0x01", []byte("\n\n\x01")},
+		{"2000xLF-then-x", append(rep("\n", 2000), 'x')},
 	}
 }
 
